@@ -309,6 +309,10 @@ type vf19Conn struct {
 	SrvMax  uint16
 	HRR     bool
 	OmitPSK bool
+	// PreBuild: what the caller does before Handshake. 0 nothing; 1 an explicit BuildHandshakeState; 2 build then
+	// SetClientRandom; 3 build then a new Hello.SessionId (documented edits between BuildHandshakeState and Handshake:
+	// the hello is re-marshalled by Handshake and a PSK binder must be recomputed over the new bytes)
+	PreBuild int
 }
 
 func vf19VersName(v uint16) string {
@@ -466,15 +470,42 @@ func (w *vf19World) connect(t vfFataler, c vf19Conn) {
 	}
 	pair := vfNewPair(ccfg, hid, scfg)
 	defer pair.Close()
-	var pre func() error
-	if id.Custom {
-		pre = func() error {
+	pre := func() error {
+		if id.Custom {
 			spec, err := id.spec()
 			if err != nil {
 				return err
 			}
-			return pair.Cli.ApplyPreset(spec)
+			if err := pair.Cli.ApplyPreset(spec); err != nil {
+				return err
+			}
 		}
+		if c.PreBuild > 0 {
+			if err := pair.Cli.BuildHandshakeState(); err != nil {
+				return err
+			}
+			switch c.PreBuild {
+			case 2:
+				r := make([]byte, 32)
+				for i := range r {
+					r[i] = byte(0xa0 + idx + i)
+				}
+				if err := pair.Cli.SetClientRandom(r); err != nil {
+					return err
+				}
+			case 3:
+				sid := make([]byte, 32)
+				for i := range sid {
+					sid[i] = byte(0x30 + idx*3 + i)
+				}
+				pair.Cli.HandshakeState.Hello.SessionId = sid
+			}
+		}
+		return nil
+	}
+	if c.PreBuild > 0 {
+		w.log[len(w.log)-1] += fmt.Sprintf(" prebuild=%d", c.PreBuild)
+		st.Class(fmt.Sprintf("prebuild=%d", c.PreBuild))
 	}
 	cerr, serr, cpn, spn := vf19Run(pair, pre)
 	if cpn != nil {
@@ -773,6 +804,9 @@ func TestVerifC19StateMachine(t *testing.T) {
 						SrvMax:  []uint16{VersionTLS12, VersionTLS13, VersionTLS13}[rapid.IntRange(0, 2).Draw(rt, "srvmax")],
 						HRR:     rapid.IntRange(0, 3).Draw(rt, "hrr") == 0,
 						OmitPSK: rapid.IntRange(0, 9).Draw(rt, "omit") != 0}
+					if rapid.IntRange(0, 2).Draw(rt, "prebuildp") == 0 {
+						c.PreBuild = rapid.IntRange(1, 3).Draw(rt, "prebuild")
+					}
 				}
 				cc := c
 				prev[name] = &cc
